@@ -96,9 +96,11 @@ def winCoef (g : List α) : List Nat → List α
   | i :: is => (if is.contains i then 0 else g.getD i 0) :: winCoef g is
   | [] => []
 
-/-- What `SetItem.backward_var(grad, 1)` computes.  `recognised` mirrors the guard
-`_is_int_array_index(self.index)` (`np.issubdtype(dtype, np.int_)`, true only for the platform
-`int64`): when it is false the de-duplication is skipped and the value receives `grad[index]`. -/
+/-- What `SetItem.backward_var(grad, 1)` computes.  `recognised` is the outcome of the guard
+`_is_int_array_index(self.index)` for an index that does contain an integer array: when the guard
+misses it (`false`) the de-duplication is skipped and the value receives `grad[index]`.  Until commit
+00e4546 of /repo the guard was `np.issubdtype(dtype, np.int_)`, i.e. `false` for every integer dtype
+other than the platform `int64` (finding F1); since then it is `np.integer`, i.e. always `true`. -/
 def setitemBwdValue (recognised : Bool) (g : List α) (idx : List Nat) : List α :=
   if recognised then winCoef g idx else gather idx g
 
